@@ -38,8 +38,10 @@ LEVEL = 'exploration'
 # hang guard: a call into the code under test that does not return is reported, it does not hang the checker.
 # Hang derives from BaseException so that `except Exception` inside the code under test cannot swallow it.
 
-CALL_BUDGET_S = 60          # one call normally takes < 10 ms; only a genuine endless loop gets here
+CALL_BUDGET_S = 5           # CPU seconds (ITIMER_PROF: independent of machine load); one call normally takes < 50 ms
 ITEM_LIMIT = 4096           # no explored case has more than ~40 lines
+HANG_FLAG = None            # path of a flag file in the scratch dir: set by the first worker that sees a hang, so the
+                            # remaining shards stop at once instead of paying the budget for every case
 
 
 class Hang(BaseException):
@@ -52,13 +54,27 @@ def _on_alarm(signum, frame):
 
 class deadline:
     def __enter__(self):
-        self.old = signal.signal(signal.SIGALRM, _on_alarm)
-        signal.setitimer(signal.ITIMER_REAL, CALL_BUDGET_S)
+        self.old = signal.signal(signal.SIGPROF, _on_alarm)
+        signal.setitimer(signal.ITIMER_PROF, CALL_BUDGET_S)
 
     def __exit__(self, *exc):
-        signal.setitimer(signal.ITIMER_REAL, 0)
-        signal.signal(signal.SIGALRM, self.old)
+        signal.setitimer(signal.ITIMER_PROF, 0)
+        signal.signal(signal.SIGPROF, self.old)
         return False
+
+
+def saw_hang(t=None):
+    """Record (t given) or query the run-wide hang flag."""
+    if HANG_FLAG is None:
+        return False
+    if t is not None:
+        try:
+            open(HANG_FLAG, 'w').close()
+        except OSError:
+            pass
+        t.add('hangs')
+        return True
+    return os.path.exists(HANG_FLAG)
 
 
 def drain(it):
@@ -169,7 +185,10 @@ def split_shard(arg):
     n, prefix, with_indent = arg
     t = inputs.Tally()
     head = ''.join(prefix)
-    for rest in itertools.product(SPLIT_ALPHABET, repeat=n - len(prefix)):
+    for k, rest in enumerate(itertools.product(SPLIT_ALPHABET, repeat=n - len(prefix))):
+        if k % 256 == 0 and saw_hang():
+            t.add('cut_short_after_hang')
+            return t
         text = head + ''.join(rest)
         nontrivial = any(c in BREAKS for c in text)
         case = {'part': 'iter_splitlines', 'text': text}
@@ -177,12 +196,16 @@ def split_shard(arg):
         bad = check_split(strutils, text)
         if bad:
             t.bad(bad[0], case, bad[1], bad[2])
+            if bad[0].endswith('no termination'):
+                saw_hang(t)
         if with_indent:
             for si, setting in enumerate(INDENT_SETTINGS):
                 t.add('indent_evaluations')
                 bad = check_indent(strutils, text, setting)
                 if bad:
                     t.bad(bad[0], {'part': 'indent', 'text': text, 'setting': si}, bad[1], bad[2])
+                    if bad[0].endswith('no termination'):
+                        saw_hang(t)
     return t
 
 
@@ -321,6 +344,9 @@ def check_rev_content(jsonutils, content, path, modes, t):
                 t.bad('C19|fn:reverse_iter_lines|' + classify_rev(content, textmode, obs, accept), case,
                       accept[0] if len(accept) == 1 else {'any of': accept}, list(obs),
                       tags=rev_tags(content) + [mode])
+                if obs[0] == 'hang':
+                    saw_hang(t)
+                    return
 
 
 def rev_shard(arg):
@@ -331,6 +357,9 @@ def rev_shard(arg):
     fds0 = len(os.listdir('/proc/self/fd')) if os.path.isdir('/proc/self/fd') else None
     head = ''.join(prefix)
     for rest in itertools.product(REV_TOKENS, repeat=n - len(prefix)):
+        if saw_hang():
+            t.add('cut_short_after_hang')
+            break
         check_rev_content(jsonutils, head + ''.join(rest), path, modes, t)
     if fds0 is not None:
         import gc
@@ -443,7 +472,7 @@ def jsonl_blocksizes(nbytes, quick):
     for b in (nbytes - 1, nbytes, nbytes + 1):
         if b >= 1 and b not in out and b != 4096:
             out.append(b)
-    if not quick and 1 not in out:
+    if not quick and 1 not in out and nbytes < 1000:     # block size 1 on a 5000-byte line is quadratic: skipped
         out.append(1)
     return out
 
@@ -485,6 +514,9 @@ def check_jsonl_file(jsonutils, lines, eol, trailing, path, kinds, quick, t):
                     tags.append('starts_with_blank_line')
                 t.bad('C19|cls:JSONLIterator|%s|%s' % ('reverse' if reverse else 'forward', what), case,
                       jsonl_short(exp), jsonl_short(list(obs)), tags=tags)
+                if obs[0] == 'hang':
+                    saw_hang(t)
+                    return
 
 
 def jsonl_line_lists(maxlines):
@@ -498,6 +530,9 @@ def jsonl_shard(arg):
     t = inputs.Tally()
     path = os.path.join(scratch, 'jsonl-%d.dat' % os.getpid())
     for rest in itertools.product(JSONL_MENU, repeat=n - len(prefix)):
+        if saw_hang():
+            t.add('cut_short_after_hang')
+            break
         lines = tuple(prefix) + rest
         for eol in eols:
             for trailing in (False, True):
@@ -533,14 +568,18 @@ def bounds(ctx):
 
 def run(ctx):
     b = bounds(ctx)
+    global HANG_FLAG
     scratch = core.scratch_dir('c19')
     try:
+        HANG_FLAG = os.path.join(scratch, 'HANG-1')        # one flag per part: a hang in one function does not
         t1 = inputs.run_shards(
             ctx, split_shard, split_shards(b['split_maxlen'], b['indent_maxlen']), part='iter_splitlines+indent',
             rule='text contains at least one of the 8 line-break forms')
+        HANG_FLAG = os.path.join(scratch, 'HANG-2')        # stop the exploration of the others
         t2 = inputs.run_shards(
             ctx, rev_shard, rev_shards(scratch, b['rev_maxtok'], REV_MODES), part='reverse_iter_lines',
             rule='content contains at least one \\n or \\r\\n (case = content x blocksize x file kind x preseek)')
+        HANG_FLAG = os.path.join(scratch, 'HANG-3')
         t3 = inputs.run_shards(
             ctx, jsonl_shard, jsonl_shards(scratch, b['jsonl_maxlines'], b['jsonl_eols'], JSONL_KINDS, ctx.quick()),
             part='jsonl',
@@ -548,6 +587,7 @@ def run(ctx):
                  '(case = file x file kind x ignore_errors x direction x block size)')
         left = sorted(os.listdir(scratch))
     finally:
+        HANG_FLAG = None
         shutil.rmtree(scratch, ignore_errors=True)
     leaked = t2.extra.get('harness_open_files_left', 0)
     if leaked:
@@ -555,7 +595,11 @@ def run(ctx):
     ctx.coverage['rule'] = ('non-trivial = the input contains a line break (iter_splitlines, reverse_iter_lines) / '
                             'the JSONL file has >= 2 lines with a blank or corrupt one; every counted case is a '
                             'distinct (input, configuration) tuple by construction')
-    ctx.coverage['exhaustive'] = True
+    cut = sum(t.extra.get('cut_short_after_hang', 0) + t.extra.get('hangs', 0) for t in (t1, t2, t3))
+    ctx.coverage['exhaustive'] = not cut
+    if cut:
+        ctx.note('a call into the code under test did not terminate within %d CPU-seconds: the remaining shards were '
+                 'cut short, the enumeration is NOT exhaustive in this run' % CALL_BUDGET_S)
     ctx.coverage['bounds'] = {
         'iter_splitlines': {'alphabet': list(SPLIT_ALPHABET), 'max_length': b['split_maxlen'],
                             'indent_max_length': b['indent_maxlen'],
@@ -566,9 +610,9 @@ def run(ctx):
         'jsonl': {'line_menu': list(JSONL_MENU), 'max_lines': b['jsonl_maxlines'], 'eol': list(b['jsonl_eols']),
                   'trailing_eol': [False, True], 'kinds': list(JSONL_KINDS), 'ignore_errors': [False, True],
                   'directions': 'forward; reverse with block 4096 (native), 3, len(file)-1, len(file), len(file)+1'
-                                + ('' if ctx.quick() else ', 1')},
+                                + ('' if ctx.quick() else ', 1 (files without the 5000-byte line)')},
     }
-    ctx.coverage['scratch_left_behind'] = [f for f in left if not f.endswith('.dat')]
+    ctx.coverage['scratch_left_behind'] = [f for f in left if not f.endswith('.dat') and not f.startswith('HANG')]
     ctx.assumptions += [
         'files are UTF-8; text-mode files are opened with encoding="utf-8"',
         'a lone \\r is not a line break of reverse_iter_lines\' domain (statement: \\n- or \\r\\n-separated) and is '
